@@ -5,6 +5,27 @@ import json, os, subprocess
 HERE = os.path.dirname(os.path.dirname(os.path.abspath(__file__)))
 
 CHECKS = {
+    "C03": dict(
+        category="exploration",
+        technique="deterministic simulation: seeded search over collection schedules at VM instruction boundaries, differential twin with collections suppressed, independent heap audit after every collection",
+        text="Seeded search over (program, collection schedule): generated sessions and allocation-heavy templates run under every-k, every-instruction, Bernoulli, burst, production-policy and between-form schedules; every form's value, failure, output, stack trace and instruction count is compared with a twin VM in which no collection happens, and an independent reachability audit (safety I1, bookkeeping I3, intern table I4) runs after every collection. Evidence from sampling, not proof.",
+        note="Trusted: hook H3 enters the VM's own run_gc (only its utilisation test is skipped); the auditor's own root enumeration and traversal; Suppress mode as 'no collection'.",
+        design="§5 C03, §4.4",
+    ),
+    "C12": dict(
+        category="exploration",
+        technique="deterministic simulation: heap audit 'no unreachable cell stays allocated' after every scheduled collection, plus resource monitors over garbage loops (n vs 10n) under the production collection policy with randomised knobs",
+        text="After every collection of the C03 schedule families the auditor checks that each allocated cell is reachable from the roots; garbage loops of 11 allocation kinds x 3 live-set sizes, split into forms and slices with a randomised initial heap chunk, must hold no more heap capacity, stack capacity, cells in use, interned symbols or global slots after 10n iterations than after n. Sampling of programs and schedules.",
+        note="Trusted: auditor traversal (conservative about jump offsets for I2); 'stops growing' is decided as not-larger at 10n than at n with n past warm-up (quick: 3e3/1e4, thorough: 1e4/1e5).",
+        design="§5 C12",
+    ),
+    "C18": dict(
+        category="exploration",
+        technique="deterministic simulation: seeded collection schedules between two productions of a symbol name, name-equality model and intern-table audit",
+        text="Pairs of production routes (10 routes) over a palette of 37 names, first symbol held in a global, vector, closure, on the stack or dropped, with garbage and forced/production collections between the productions within one evaluation and across evaluations; eq? must equal name equality, both conversion laws must hold, and the intern table is audited (I4) after every collection. Sampling.",
+        note="Trusted: a symbol's name is the Rust string the generator wrote; literal routes only for names the pinned reader spells as one symbol token.",
+        design="§5 C18",
+    ),
     "C13": dict(
         category="fault_enumeration",
         technique="deterministic simulation: seeded slice-budget schedules (all constant budgets 1..64 enumerated per short program; random and adversarial cut sequences sampled) against an uninterrupted twin VM",
